@@ -98,7 +98,7 @@ pub struct Router {
     router_meters: RouterMeter,
     /// Buffer for cache exchange of incoming packets
     cache: Option<VecDeque<Packet>>,
-    /// Shared subscriptions map <group-name, group>
+    /// Shared subscriptions map <$share/group-name/filter, group>
     shared_subscriptions: HashMap<String, SharedGroup>,
     /// Will messages per client_id
     last_wills: HashMap<String, (LastWill, Option<LastWillProperties>)>,
@@ -694,8 +694,10 @@ impl Router {
                         let mut filter = f.path.clone();
                         let mut group = None;
 
-                        if let Some((grp, filter_path)) = extract_group(&f.path) {
-                            group = Some(grp);
+                        if let Some((_share_name, filter_path)) = extract_group(&f.path) {
+                            // a shared subscription is share name AND topic filter: its group (turn
+                            // and read cursor in the log of that filter) is found under the whole path
+                            group = Some(f.path.clone());
                             filter = filter_path;
                         };
 
